@@ -399,6 +399,24 @@ def run_program(mods, prog, check=True):
     return m
 
 
+def shrink(mods, prog, sig):
+    """greedy one-op deletion while the same predicate still fails (any failing program is a witness)"""
+    prog = list(prog)
+    changed = True
+    while changed:
+        changed = False
+        for k in range(len(prog) - 1, -1, -1):
+            cand = prog[:k] + prog[k + 1:]
+            try:
+                m = run_program(mods, cand, check=True)
+            except Exception:  # noqa: BLE001
+                continue
+            if any(s_ == sig for s_, _ in m.fails):
+                prog = cand
+                changed = True
+    return prog
+
+
 # --------------------------------------------------------------------------- program generator
 def rand_vals(rng):
     return {"config": (rng.randint(0, 3), rng.randint(0, 9)),
@@ -615,6 +633,7 @@ def run(ctx):
     nprog = 4000 if ctx.quick else 60000
     progs = [gen_program(rng, rng.randint(1, 12)) for _ in range(nprog)]
     lines, code_out = [], []
+    shrunk = set()
     for prog in progs:
         m = run_program(mods, prog, check=True)
         code_out.append(m.line())
@@ -627,7 +646,13 @@ def run(ctx):
         if any(b.split(":")[0] in ("paste", "rev", "copy", "iadd") for b in m.branches):
             ctx.distinct(lines[-1])
         for sig, what in m.fails:
-            ctx.fail(sig, what, {"kind": "prog", "prog": [list(op) for op in prog]})
+            small = prog
+            if sig not in shrunk:
+                shrunk.add(sig)
+                small = shrink(mods, prog, sig)
+                what = next((w for s_, w in run_program(mods, small).fails if s_ == sig), what)
+            ctx.fail(sig, what, {"kind": "prog", "prog": [list(op) for op in small],
+                                 "line": "prog " + " ".join(op_tokens(op) for op in small)})
     if have_model:
         out = ctx.driver(lines)
         for prog, c, mo in zip(progs, code_out, out):
